@@ -20,7 +20,7 @@ def role_variants(name):
     out.discard(name)
     return sorted(out)
 STRATA = ["named", "named", "named", "other_role", "untrusted_own", "union", "below", "type_confusion", "unknown_role",
-          "named_junk", "trusted_malformed"]
+          "named_junk", "trusted_malformed", "named_with_stale_listed", "named_with_stale_listed"]
 
 
 def gen_case(rng, gpg=None, stratum=None):
@@ -143,7 +143,17 @@ def gen_case(rng, gpg=None, stratum=None):
     else:
         ks, t = [], 1
     others = [n for n in names if n != role]
-    if stratum in ("named", "named_junk", "type_confusion", "unknown_role"):
+    if stratum == "named_with_stale_listed":
+        # exactly the threshold of good signers; every OTHER listed key carries a well-formed signature that does not verify
+        # (stale: made over an earlier version of the document / by another key / bit-flipped); entry order is shuffled below
+        good = rng.sample(ks, min(t, len(ks)))
+        sign(good)
+        wf = [st for st in gentries.invalid_states(gpg) if st in ("other_payload", "other_key", "bitflip", "malleated", "hdr_flip")] or \
+            gentries.invalid_states(gpg)
+        for k in ks:
+            if k.hex not in {g.hex for g in good}:
+                sign([k], rng.choice(wf))
+    elif stratum in ("named", "named_junk", "type_confusion", "unknown_role"):
         if ks:
             sign(rng.sample(ks, rng.randint(min(t, len(ks)), len(ks))))
         else:
